@@ -210,3 +210,19 @@ M("C02", "mutate-ignores-dependencies", TB, "                for m in mutated:\n
 M("C02", "twin-intrange-mirrored", MHI, "    def validate(self, v) -> bool:\n        return self.min <= v <= self.max\n\n    def __class_getitem__(cls, args):\n        return IntRange(*args)",
   "    def validate(self, v) -> bool:\n        return v >= self.min and self.max >= v\n\n    def __class_getitem__(cls, args):\n        return IntRange(*args)", "", expect="silent")
 M("C02", "twin-intervalrange-renamed", MHI, "        length = v[1] - v[0]\n        return self.minimum_length <= length", "        span = v[1] - v[0]\n        length = span\n        return self.minimum_length <= length", "", expect="silent")
+
+# ------------------------------------------------------------------------------------- C10
+GRM = "geneticengine/grammar/grammar.py"
+M("C10", "create-node-alias-remove", INI, "compatible_productions = list(global_context.grammar.alternatives[starting_symbol])", "compatible_productions = global_context.grammar.alternatives[starting_symbol]", "C10.R1")
+M("C10", "create-node-conditional-copy", INI, "compatible_productions = list(global_context.grammar.alternatives[starting_symbol])",
+  "prods = global_context.grammar.alternatives[starting_symbol]\n            compatible_productions = list(prods) if len(prods) > 1 else prods", "C10.R1")
+M("C10", "decider-filters-in-place", INI,
+  "        alternatives = [\n            x for x in alternatives if self.grammar.get_distance_to_terminal(x) <= (self.max_depth - ctx.depth)\n        ]\n        return self.random.choice(alternatives)\n\n    def validate",
+  "        for x in list(self.grammar.alternatives.get(ty, [])):\n            if self.grammar.get_distance_to_terminal(x) > (self.max_depth - ctx.depth):\n                self.grammar.alternatives[ty].remove(x)\n        return self.random.choice(self.grammar.alternatives.get(ty, alternatives))\n\n    def validate", "C10.R1")
+M("C10", "stack-pops-production", STK, "                alt = r.choice(compatible_productions)", "                alt = compatible_productions.pop()", "C10.R1")
+M("C10", "shuffle-grammar-list", STK, "                concrete = r.choice(g.alternatives[target_type])", "                concrete = r.shuffle(g.alternatives[target_type])[0]", "C10.R1")
+M("C10", "weights-rewritten-in-decider", INI, "        weights = [w(alt) * self.grammar.get_weights()[alt] for alt in alternatives]",
+  "        self.grammar.update_weights(0.0, self.grammar.get_weights())\n        weights = [w(alt) * self.grammar.get_weights()[alt] for alt in alternatives]", "C10.R2")
+M("C10", "alternatives-defaultdict", GRM, "        self.alternatives: dict[type, list[type]] = {}", "        self.alternatives: dict[type, list[type]] = defaultdict(list)", "C10.R3")
+M("C10", "twin-copy-by-slice", INI, "compatible_productions = list(global_context.grammar.alternatives[starting_symbol])", "compatible_productions = global_context.grammar.alternatives[starting_symbol][:]", "", expect="silent")
+M("C10", "twin-copy-comprehension", INI, "compatible_productions = list(global_context.grammar.alternatives[starting_symbol])", "compatible_productions = [p for p in global_context.grammar.alternatives[starting_symbol]]", "", expect="silent")
